@@ -1,7 +1,7 @@
 """X01 - specification coverage BEYOND the listed properties (not registered in MANIFEST.json; `./check X01`).
 The specifications keep growing to cover more of numqi's behaviour; parts that belong to none of C01..C20 are decided here, so
 that a defect in them can never be reported against a listed property.
-specs: specs/extra/{MC_Qudit,MC_SymplecticGS}.tla"""
+specs: specs/extra/{MC_Qudit,MC_SymplecticGS,MC_PauliOrbit,MC_SymBasis}.tla"""
 import itertools, math, random
 import numpy as np
 from .. import tlc, core
@@ -106,16 +106,110 @@ def run_pauli_exponential(ctx):
                 ctx.violation('X01:pauli_exponential:exception', type(ex).__name__ + ': ' + str(ex)[:160], dict(a_quarter_pi=k))
 
 
+def run_symbasis(ctx, quick):
+    """symmetric / antisymmetric bases of (C^d)^{(x) r}: the matrices of MC_SymBasis against get_symmetric_basis / get_antisymmetric_basis,
+    then every other route of numqi.matrix_space to the same projections (nd-tensor, product vectors, pairs of matrices, repeated
+    factors, the mixed antisymmetric-symmetric projection of the rank hierarchy) against the specification's matrices"""
+    import functools
+    import numqi
+    MS = numqi.matrix_space
+    r = tlc.run('extra/MC_SymBasis.tla', 'extra/MC_SymBasis.cfg', dump=True, timeout=900)
+    ctx.add_model('MC_SymBasis', r)
+    spec = {}
+    for st in tlc.parse_dump(r):
+        d, rk, kind = st['d'], st['r'], st['kind']
+        M = np.zeros((len(st['rows']), d ** rk))
+        for i, row in enumerate(st['rows']):
+            for f, sg, num, den in (row[1] if isinstance(row, tuple) else row):
+                M[i, f] = sg * math.sqrt(num / den)
+        spec[(kind, d, rk)] = M
+    rng = np.random.default_rng(ctx.seed + 11)
+    kron = lambda xs: functools.reduce(np.kron, xs)
+
+    def cmp(key, what, got, want, data):
+        got = np.asarray(got)
+        if got.shape != want.shape or core.gt(np.abs(got - want).max(), 1e-10):
+            ctx.violation('X01:%s' % key, what, data)
+    for (kind, d, rk), B in sorted(spec.items()):
+        data = dict(kind=kind, dim=d, rank=rk)
+        ctx.case(('symbasis', kind, d, rk))
+        try:
+            if kind == 'sym':
+                cmp('get_symmetric_basis:matrix', 'get_symmetric_basis(%d,%d) differs from the basis of the specification' % (d, rk), MS.get_symmetric_basis(d, rk), B, data)
+            else:
+                cmp('get_antisymmetric_basis:matrix', 'get_antisymmetric_basis(%d,%d) differs from the basis of the specification' % (d, rk), MS.get_antisymmetric_basis(d, rk), B, data)
+            f_nd = MS.project_nd_tensor_to_symmetric_basis if kind == 'sym' else MS.project_nd_tensor_to_antisymmetric_basis
+            f_pr = MS.project_to_symmetric_basis if kind == 'sym' else MS.project_to_antisymmetric_basis
+            T = rng.integers(-3, 4, size=[d] * rk).astype(np.float64)
+            cmp('project_nd_tensor:%s' % kind, 'projection of an nd tensor differs from basis @ tensor', f_nd(T, rk), B @ T.reshape(-1), data)
+            for nb in (1, 3):
+                Tb = rng.integers(-3, 4, size=[d] * rk + [nb]).astype(np.float64)
+                cmp('project_nd_tensor:%s:batch' % kind, 'projection of a batch of nd tensors differs from basis @ tensor', f_nd(Tb, rk), B @ Tb.reshape(-1, nb), dict(data, batch=nb))
+                vs = [rng.integers(-3, 4, size=(d, nb)).astype(np.float64) for _ in range(rk)]
+                want = np.stack([B @ kron([v[:, b] for v in vs]) for b in range(nb)], axis=1)
+                cmp('project_product:%s' % kind, 'projection of a product of vectors differs from basis @ kron(vectors)', np.asarray(f_pr(vs)).reshape(want.shape), want, dict(data, batch=nb))
+            if kind == 'sym' and rk >= 2:
+                # repeated factors: INDEX names which vector sits in which slot
+                vs = [rng.integers(-3, 4, size=(d, 2)).astype(np.float64) for _ in range(rk)]
+                for INDEX in sorted(set(itertools.combinations_with_replacement(range(rk), rk)))[:40]:
+                    want = np.stack([B @ kron([vs[i][:, b] for i in INDEX]) for b in range(2)], axis=1)
+                    cmp('project_product:sym:repeated', 'project_to_symmetric_basis with repeated factors differs from basis @ kron(vectors)', MS.project_to_symmetric_basis(vs, INDEX), want, dict(data, INDEX=list(INDEX)))
+            ctx.traces += 1
+        except Exception as ex:
+            ctx.violation('X01:symbasis:exception', type(ex).__name__ + ': ' + str(ex)[:160], data)
+    # pairs of matrices: antisym(A) (x) antisym(B), also with repeated factors
+    for dA, dB, rk in [(2, 2, 2), (3, 2, 2), (2, 3, 2), (3, 3, 2), (3, 4, 3), (4, 3, 3), (4, 4, 2)] + ([] if quick else [(4, 4, 3), (4, 4, 4), (3, 3, 3)]):
+        data = dict(dimA=dA, dimB=dB, rank=rk)
+        ctx.case(('tensor2d', dA, dB, rk))
+        try:
+            A0, A1 = spec[('anti', dA, rk)], spec[('anti', dB, rk)]
+            Ms = [rng.integers(-3, 4, size=(dA, dB)).astype(np.float64) for _ in range(rk)]
+            cmp('tensor2d_project_to_antisym_basis', 'differs from A0 @ kron(matrices) @ A1^T', MS.tensor2d_project_to_antisym_basis(Ms), A0 @ kron(Ms) @ A1.T, data)
+            for INDEX in sorted(set(itertools.combinations_with_replacement(range(rk), rk)) | {tuple(rng.integers(0, rk, size=rk).tolist()) for _ in range(4)}):
+                cmp('tensor2d_project_to_antisym_basis:INDEX', 'with INDEX (repeated / permuted factors) differs from A0 @ kron(matrices[INDEX]) @ A1^T',
+                    MS.tensor2d_project_to_antisym_basis(Ms, list(INDEX)), A0 @ kron([Ms[i] for i in INDEX]) @ A1.T, dict(data, INDEX=list(INDEX)))
+            ctx.traces += 1
+        except Exception as ex:
+            ctx.violation('X01:tensor2d_project_to_antisym_basis:exception', type(ex).__name__ + ': ' + str(ex)[:160], data)
+    # the mixed projection of the hierarchy: antisymmetric on r+1 factors, symmetric on all r+k factors of C^dA (x) C^dB
+    for dA, dB, r_, k in [(2, 2, 1, 2)] + ([] if quick else [(2, 2, 1, 3), (3, 2, 1, 2)]):
+        data = dict(dimA=dA, dimB=dB, r=r_, k=k)
+        n = r_ + k
+        if ('sym', dA * dB, n) not in spec and dA * dB > 4:
+            continue
+        ctx.case(('mixed', dA, dB, r_, k))
+        try:
+            S = spec[('sym', dA * dB, n)]
+            N0 = S.shape[0]
+            z0 = S.reshape([N0] + [x for _ in range(n) for x in (dA, dB)]).transpose([0] + list(range(1, 2 * n + 1, 2)) + list(range(2, 2 * n + 1, 2))).reshape(N0, -1)
+            z1, z2 = spec[('anti', dA, r_ + 1)], spec[('anti', dB, r_ + 1)]
+            proj = np.einsum(z0, [0, 7], z0.reshape(N0, dA ** (r_ + 1), dA ** (k - 1), dB ** (r_ + 1), dB ** (k - 1)), [0, 1, 2, 3, 4], z1, [5, 1], z2, [6, 3], [5, 2, 6, 4, 7], optimize=True).reshape(-1, z0.shape[1])
+            Ms = [rng.integers(-3, 4, size=(dA, dB)).astype(np.float64) for _ in range(n)]
+            full = kron([m.reshape(-1) for m in Ms]).reshape([dA, dB] * n).transpose(list(range(0, 2 * n, 2)) + list(range(1, 2 * n, 2))).reshape(-1)
+            want = proj @ full
+            cmp('naive_tensor2d_project_to_sym_antisym_basis', 'differs from the projector assembled from the bases of the specification', MS.naive_tensor2d_project_to_sym_antisym_basis(Ms, r_), want, data)
+            ret0, ret1 = MS.tensor2d_project_to_sym_antisym_basis(Ms, r_)
+            got = np.einsum(ret0, [0, 1, 2], ret1, [3, 2], [0, 1, 3], optimize=True)
+            Sk = spec[('sym', dA * dB, k - 1)] if k > 1 else None
+            basis = Sk.reshape([-1] + [x for _ in range(k - 1) for x in (dA, dB)]).transpose([0] + [2 * x + 1 for x in range(k - 1)] + [2 * x + 2 for x in range(k - 1)]).reshape(-1, (dA * dB) ** (k - 1))
+            got = (got @ basis).reshape(got.shape[:2] + (dA ** (k - 1), dB ** (k - 1))).transpose(0, 2, 1, 3).reshape(-1)
+            cmp('tensor2d_project_to_sym_antisym_basis', 'the fast mixed projection differs from the projector assembled from the bases of the specification', got, want, data)
+            ctx.traces += 1
+        except Exception as ex:
+            ctx.violation('X01:tensor2d_project_to_sym_antisym_basis:exception', type(ex).__name__ + ': ' + str(ex)[:160], data)
+
+
 def run(ctx):
     quick = ctx.tier == 'quick'
     ctx.rule = ('beyond the listed properties: Weyl-Heisenberg matrices d = 2, 4, 8 (commutation, order, Fourier relation as TLC invariants); symplectic Gram-Schmidt over F2 for every list of '
-                '%d vectors of F2^4 (number of hyperbolic pairs = rank of the Gram matrix / 2, computed by TLC); Pauli exponential on the axis grid; orbits of two-qubit Pauli subsets under the Clifford group' % (4 if quick else 5))
+                '%d vectors of F2^4 (number of hyperbolic pairs = rank of the Gram matrix / 2, computed by TLC); Pauli exponential on the axis grid; orbits of two-qubit Pauli subsets under the Clifford group; the symmetric / antisymmetric bases of (C^d)^r for d <= 4, r <= 4 and every projection route of numqi.matrix_space built on them' % (4 if quick else 5))
     ctx.assumptions = ['TLC/SANY correct', 'tolerance 1e-9']
     ctx.not_covered = ['everything else outside C01..C20 (optimisers, maximum entropy, unique determination, query algorithms, optimal control)']
     run_qudit(ctx)
     run_symplectic_gs(ctx, quick)
     run_pauli_exponential(ctx)
     run_pauli_orbit(ctx, quick)
+    run_symbasis(ctx, quick)
     ctx.sample(dict(kind='extra-models', models=[m['model'] for m in ctx.models]))
 
 
